@@ -2,6 +2,7 @@ package handlers
 
 import (
 	"context"
+	"github.com/mimecast/dtail/internal/vhook"
 	"strings"
 
 	"github.com/mimecast/dtail/internal"
@@ -59,7 +60,9 @@ func (h *ServerHandler) handleUserCommand(ctx context.Context, ltx lcontext.LCon
 
 	dlog.Server.Debug(h.user, "Handling user command", argc, args)
 	h.incrementActiveCommands()
+	vhook.Point("srv.cmd.recv", vhook.ID(h), commandName)
 	commandFinished := func() {
+		vhook.Point("srv.cmd.done", vhook.ID(h), commandName)
 		if h.decrementActiveCommands() == 0 {
 			h.shutdown()
 		}
